@@ -587,13 +587,14 @@ def _coverage(rep, model):
         (Fr(5), Fr(13), Fr(2), Fr(-6), Fr(2)),
     ]
 
-    def space(rho, zmin, zmax, ndim):
+    def space(rho, zmin, zmax, ndim, box=None):
+        x0, x1, y0, y1 = box or (-rho, rho, -rho, rho)
         part = Rec('partition', cell_sides=SArr([Rat.const(1)] * ndim),
-                   min_pt=SArr([Rat.const(-rho), Rat.const(-rho),
+                   min_pt=SArr([Rat.const(x0), Rat.const(y0),
                                 Rat.const(zmin)][:ndim]),
-                   max_pt=SArr([Rat.const(rho), Rat.const(rho),
+                   max_pt=SArr([Rat.const(x1), Rat.const(y1),
                                 Rat.const(zmax)][:ndim]),
-                   extent=SArr([Rat.const(2 * rho), Rat.const(2 * rho),
+                   extent=SArr([Rat.const(x1 - x0), Rat.const(y1 - y0),
                                 Rat.const(zmax - zmin)][:ndim]))
         dom = Rec('domain', corners=Builtin('corners', lambda: Opaque(
             'corners')), min_pt=part.attrs['min_pt'],
@@ -635,6 +636,13 @@ def _coverage(rep, model):
                                     vs_[0]) and vs_[0][1].is_const():
                             keyed.append((vs_[0][1].constant(), r))
                             continue
+                        if vs_ and all(isinstance(v, tuple) and v[0] in (
+                                'sqrt', 'root') and v[1].is_const()
+                                for v in vs_):
+                            # radicals of constants: ordered numerically
+                            from .. import posalg as _PA
+                            keyed.append((_PA.num_eval(r, {}), r))
+                            continue
                         raise Undecided('%s of %r' % (name, vals))
                     kinds = {r.is_const() for _, r in keyed}
                     if len(kinds) != 1 and any(
@@ -671,6 +679,38 @@ def _coverage(rep, model):
                                  else to_items(v)[i])
         return to_rat(v)
 
+    # boxes off the rotation axis whose farthest corner (a mixed one) has a
+    # rational distance rho from the axis
+    for box, rho in (((Fr(-3), Fr(-1), Fr(1), Fr(4)), Fr(5)),
+                     ((Fr(1), Fr(12), Fr(-5), Fr(-2)), Fr(13)),
+                     ((Fr(-8), Fr(2), Fr(-1), Fr(6)), Fr(10))):
+        for ndim in (2, 3):
+            tag = 'parallel_beam_geometry[%dd; box x in [%s, %s], y in ' \
+                '[%s, %s]]' % ((ndim,) + box)
+            try:
+                res, fn = run(PAR, 'parallel_beam_geometry',
+                              space(rho, Fr(-1), Fr(1), ndim, box), [], rho)
+                for lo, hi in res:
+                    hw = half(hi) if ndim == 2 else half(hi, 0)
+                    lw = half(lo) if ndim == 2 else half(lo, 0)
+                    from .. import posalg as _PA
+                    if _PA.num_eval(hw, {}) >= float(rho) - 1e-12 and \
+                            _PA.num_eval(lw, {}) <= -float(rho) + 1e-12:
+                        rep.holds('R5', tag, 'detector covers the farthest '
+                                  'corner (distance %s)' % rho)
+                    else:
+                        rep.violation(
+                            'R5', 'parallel_beam_geometry:det_min_pt',
+                            '%s: detector [%r, %r] does not reach the '
+                            'farthest corner of the volume at distance %s '
+                            'from the rotation axis' % (tag, lo, hi, rho),
+                            PAR, fn.lineno)
+            except Undecided as e:
+                rep.undecided('R5', tag, str(e), PAR, None)
+            except PyRaise as e:
+                rep.violation('R5', 'parallel_beam_geometry', '%s: raises %s'
+                              % (tag, e.name), PAR, None)
+
     for rho, rs, rd, zmin, zmax in witnesses:
         wit = 'rho=%s, r_s=%s, r_d=%s, z in [%s, %s]' % (rho, rs, rd, zmin,
                                                           zmax)
@@ -689,10 +729,13 @@ def _coverage(rep, model):
                 for lo, hi in res:
                     hw = half(hi) if ndim == 2 else half(hi, 0)
                     lw = half(lo) if ndim == 2 else half(lo, 0)
-                    ok = hw.constant() >= rho and lw.constant() <= -rho
+                    from .. import posalg as _PA
+                    nv = lambda r: _PA.num_eval(r, {})
+                    ok = nv(hw) >= float(rho) - 1e-12 and \
+                        nv(lw) <= -float(rho) + 1e-12
                     if ndim == 3:
-                        ok = ok and half(lo, 1).constant() <= zmin and \
-                            half(hi, 1).constant() >= zmax
+                        ok = ok and nv(half(lo, 1)) <= float(zmin) + 1e-12 \
+                            and nv(half(hi, 1)) >= float(zmax) - 1e-12
                     if ok:
                         rep.holds('R5', tag, 'detector covers the cylinder '
                                   'of radius rho')
